@@ -478,6 +478,9 @@ func c19(args []string) {
 						if i%3 == 1 {
 							s.Sources[f] += " 97% done, %s %d %v\ttab" // contents are data, not format strings
 						}
+						if i == 2 && u == 0 {
+							s.Sources[f] += "\n" + strings.Repeat("0123456789abcdef", 4500) // 72 kB: more than one read of any fixed-size buffer
+						}
 					}
 					s.Procs = append(s.Procs, src)
 					s.Conns = append(s.Conns, &spec.Conn{From: src.Name + ".out", To: "RIN.in"})
@@ -540,6 +543,10 @@ func c19(args []string) {
 			files = append(files, f)
 			s.Sources[f] = f
 			vals = append(vals, fmt.Sprintf("v%d", n-i))
+			if i == 1 && n >= 3 {
+				// a given path at which no file exists (yet): a source emits what it was given
+				files = append(files, fmt.Sprintf("later/notyet_%d.txt", n))
+			}
 		}
 		s.Procs = append(s.Procs, &spec.Proc{Name: "FS", Kind: spec.KFileSource, Files: files}, &spec.Proc{Name: "RF", Kind: spec.KRecorder},
 			&spec.Proc{Name: "PS", Kind: spec.KParamSource, Values: vals}, &spec.Proc{Name: "RP", Kind: spec.KParamRec})
